@@ -278,7 +278,7 @@ def family(tier="thorough"):
             }[k]
             for ri, rs in enumerate(reqsets):
                 for noise in (False, True):
-                    if tier == "quick" and k == 3 and (sup == "distinct" or (noise and (sup, ri) != ("same", 0))):
+                    if tier == "quick" and k == 3 and (sup != "same" or (noise and ri != 0)):
                         continue
                     ast = list(lets) + [("let", "q", ("drange", L(0), L(1)))]
                     for i, (pr, c) in enumerate(rs):
@@ -383,6 +383,11 @@ def random_case(rng, max_iter, dynamic=False):
                 pr = probs[0]
             probs.append(pr)
         body.append(("require", pr, c))
+    reqs_now = [b for b in body if b[0] == "require"]
+    if reqs_now and all(_strip_cond(b[2], [0]) != b[2] for b in reqs_now) and pool:
+        # every requirement consumes randomness: add a silent one that can reject on its own,
+        # so that the amount consumed on a rejected sample depends on the order of the checks
+        body.append(("require", None, ("cmp", rng.choice(["le", "ge"]), V(rng.choice(pool)), L(rng.randint(1, 3)))))
     while must:  # every requirement-only value is mentioned by some requirement
         body.append(("require", None, ("cmp", rng.choice(["le", "ge", "ne"]), V(must.pop()), L(rng.randint(1, 4)))))
     rng.shuffle(body)
@@ -518,6 +523,21 @@ def geom_case(k):
     info = {"mode": "geom", "outnames": [], "nreq": 1, "nrr": 0, "noise": 1, "nscenes": 3, "max_iter": 2000,
             "group_kind": "-", "nprims": 99, "branches": 10**9}
     return GEOM_TEXT.format(**pars), None, info
+
+
+def leak_probes():
+    """Finite-discrete counterparts of the ring-arena program: ONE requirement that consumes a
+    global generator and never rejects, ONE that consumes nothing and rejects about half of the
+    samples.  Checked in declaration order the first runs (and consumes) before the second rejects;
+    checked in the opposite order it does not run at all: the two scripted clock profiles make the
+    amount consumed on rejected samples differ, which must not be visible."""
+    D = lambda a, b: ("drange", L(a), L(b))  # noqa: E731
+    out = []
+    for fn in ("vnoise", "vnoisen"):
+        out.append(make_case([("let", "a", D(0, 9)), ("let", "b", D(0, 9)), ("param", "pa", V("a")), ("param", "pb", V("b")),
+                              ("require", None, ("cmp", "ge", ("call", fn, [V("a")], []), L(0))),
+                              ("require", None, ("cmp", "ge", V("b"), L(5)))], 40))
+    return out
 
 
 def canary():
@@ -769,44 +789,56 @@ def tlc_events(draws, ngen):
 
 
 def run_trace_tlc(ck, items, per, label="DeterminismTrace"):
-    """One joint case per program (all processes, ONE order) + one case per process.
+    """Pass 1: one JOINT case per program (all processes, ONE order).  Pass 2, only for the
+    programs no single order explains: one case per process.
     Returns (joint[i] = list of accepting orders, single[i][p] = list of accepting orders)."""
     progs = [p for _t, p, _i in items]
-    cases = []
-    index = []
-    for i, runs in enumerate(per):
-        procs = []
-        for _job, r in runs:
-            procs.append({"evs": tlc_events(r["draws"], r.get("n_generate_draws", len(r["draws"]))), "iter": r["dump"]["iterations"],
-                          "pc": r["dump"]["status"], "out": [int(x) for x in r["out"]]})
-        cases.append({"prog": i + 1, "procs": procs})
-        index.append(("joint", i, None))
-        for pi, pr in enumerate(procs):
-            cases.append({"prog": i + 1, "procs": [pr]})
-            index.append(("single", i, pi))
     entries, vindex = expand_variants(progs)
     pp = os.path.join(scratch(), f"trace-progs-{len(ck.cov['tlc_runs'])}.json")
-    cp = os.path.join(scratch(), f"trace-cases-{len(ck.cov['tlc_runs'])}.json")
     with open(pp, "w") as f:
         json.dump(entries, f)
-    with open(cp, "w") as f:
-        json.dump(cases, f)
-    res = run_tlc("DeterminismTrace", TRACE_CFG, env={"PROGS": pp, "CASES": cp, "PRINT_PAIRS": "0", "PRINT_PROGRESS": "1"},
-                  coverage=True, timeout=1500)
-    ck.add_tlc(label, res)
+
+    def procs_of(runs):
+        return [{"evs": tlc_events(r["draws"], r.get("n_generate_draws", len(r["draws"]))), "iter": r["dump"]["iterations"],
+                 "pc": r["dump"]["status"], "out": [int(x) for x in r["out"]]} for _job, r in runs]
+
+    def tlc(cases, tag, need):
+        cp = os.path.join(scratch(), f"trace-cases-{tag}-{len(ck.cov['tlc_runs'])}.json")
+        with open(cp, "w") as f:
+            json.dump(cases, f)
+        res = run_tlc("DeterminismTrace", TRACE_CFG, env={"PROGS": pp, "CASES": cp, "PRINT_PAIRS": "0",
+                                                          "PRINT_PROGRESS": "1" if tag == "single" else "0"},
+                      coverage=True, timeout=1500)
+        ck.add_tlc(f"{label}[{tag}]", res)
+        for a in need:
+            if res.coverage.get(a, (0, 0))[1] == 0:
+                raise MachineryError(f"DeterminismTrace action {a} never taken (vacuous trace validation)")
+        return res
+
     joint = [[] for _ in items]
     single = [[[] for _ in runs] for runs in per]
     progress = {}
+    res = tlc([{"prog": i + 1, "procs": procs_of(runs)} for i, runs in enumerate(per)], "joint", ("TDraw", "TActivate", "NextProc"))
     for o in res.outputs:
-        kind, i, pi = index[o["cid"] - 1]
         if o["t"] == "acc":
-            (joint[i] if kind == "joint" else single[i][pi]).append(vindex[o["pid"] - 1][1])
-        elif o["t"] == "prog" and kind == "single":
-            key = (i, pi)
-            progress[key] = max(progress.get(key, 0), o["ei"])
-    for a in ("TDraw", "TActivate", "NextProc"):
-        if res.coverage.get(a, (0, 0))[1] == 0:
-            raise MachineryError(f"DeterminismTrace action {a} never taken (vacuous trace validation)")
+            joint[o["cid"] - 1].append(vindex[o["pid"] - 1][1])
+    index = []
+    cases = []
+    for i, runs in enumerate(per):
+        if joint[i]:
+            single[i] = [list(joint[i]) for _ in runs]  # an order explaining all explains each
+            continue
+        for pi, pr in enumerate(procs_of(runs)):
+            cases.append({"prog": i + 1, "procs": [pr]})
+            index.append((i, pi))
+    if cases:
+        res = tlc(cases, "single", ("TDraw",))
+        for o in res.outputs:
+            i, pi = index[o["cid"] - 1]
+            if o["t"] == "acc":
+                single[i][pi].append(vindex[o["pid"] - 1][1])
+            elif o["t"] == "prog":
+                progress[(i, pi)] = max(progress.get((i, pi), 0), o["ei"])
     return joint, single, progress
 
 
@@ -957,11 +989,19 @@ def judge(ck, items, per, joint, single, progress, mutant=None, stats=None):
 
 
 def first_diff(ra, rb):
-    da, db = ra["dump"], rb["dump"]
-    for key in sorted(set(da) | set(db)):
-        if da.get(key) != db.get(key):
-            return {key: [da.get(key), db.get(key)]}
-    return None
+    """Path and values of the first leaf at which two dumps differ."""
+    def walk(x, y, path):
+        if isinstance(x, dict) and isinstance(y, dict):
+            for k in sorted(set(x) | set(y)):
+                if x.get(k) != y.get(k):
+                    return walk(x.get(k), y.get(k), path + [k])
+        if isinstance(x, list) and isinstance(y, list) and len(x) == len(y):
+            for k, (a, b) in enumerate(zip(x, y)):
+                if a != b:
+                    return walk(a, b, path + [k])
+        return {"/".join(str(p) for p in path): [x if not isinstance(x, (dict, list)) else "...", y if not isinstance(y, (dict, list)) else "..."]}
+
+    return walk(ra["dump"], rb["dump"], []) if ra["dump"] != rb["dump"] else None
 
 
 # ------------------------------------------------------------------ TLC on the model
@@ -992,13 +1032,14 @@ def expand_variants(progs):
 def model_check(ck, progs, tier):
     """The exhaustive runs on Determinism.tla."""
     R_ = 2
+    W = 8  # the worker processes of the binding run at the same time
     full = "TRUE" if tier == "thorough" else "FALSE"
     entries, index = expand_variants(progs)
     path = write_progs(entries, "model-progs.json")
     env = {"PROGS": path, "PRINT_HIST": "0", "PRINT_PAIRS": "0"}
     # (A) ideal model: insertion ordered -> the property holds in every environment
     res = run_tlc("Determinism", CFG.format(ordered="TRUE", restore='"always"', full=full, prior=2, R=R_, more=ALL_INVS), env=env,
-                  coverage=True, timeout=2400)
+                  coverage=True, timeout=2400, workers=W)
     ck.add_tlc("Determinism[OrderedDeps]", res)
     need = ["PriorScene", "Reseed", "DActivate", "DDraw", "Reused", "SaveRng", "CheckAny",
             "CheckDone", "RestoreRngStep", "Handover"]
@@ -1006,8 +1047,12 @@ def model_check(ck, progs, tier):
     if missing:
         raise MachineryError(f"Determinism actions never taken (vacuous model): {missing}")
     # (B) as-implemented deviation: set ordered -> must FAIL
-    res = run_tlc("Determinism", CFG.format(ordered="FALSE", restore='"always"', full=full, prior=2, R=R_, more="INVARIANT DeterministicScene\n"), env=env,
-                  expect_fail=True, timeout=2400)
+    bprogs = [p for p in progs if len(p["rroots"]) >= 2]
+    if tier == "quick":  # stops at the first counterexample: the small programs are enough
+        bprogs = sorted(bprogs, key=lambda p: (len(p["rroots"]), len(p["nodes"])))[:12]
+    bentries, bindex = expand_variants(bprogs)
+    res = run_tlc("Determinism", CFG.format(ordered="FALSE", restore='"always"', full=full, prior=2, R=R_, more="INVARIANT DeterministicScene\n"),
+                  env=dict(env, PROGS=write_progs(bentries, "model-setordered.json")), expect_fail=True, timeout=2400, workers=W)
     if res.invariant_violated != "DeterministicScene":
         raise MachineryError("the set-ordered model did not violate Deterministic: the spec cannot exhibit the "
                              f"defect (violated: {res.invariant_violated}; {res.error})")
@@ -1016,18 +1061,20 @@ def model_check(ck, progs, tier):
     cex = [o for o in res.outputs if o.get("t") == "cex"]
     if cex:
         c = cex[0]
-        b, _perm = index[c["pid1"] - 1]
+        b, _perm = bindex[c["pid1"] - 1]
         ck.cov["set_ordered_model"]["counterexample"] = {
-            "program_nodes": progs[b]["nodes"], "requirements": progs[b]["reqs"],
-            "requirement_only_roots": [{"node": n, "value": describe(progs[b], n)} for n in progs[b]["rroots"]],
+            "program_nodes": bprogs[b]["nodes"], "requirements": bprogs[b]["reqs"],
+            "unordered_group": [{"node": n, "value": describe(bprogs[b], n)} for n in bprogs[b]["rroots"]],
             "dependencies_copy1": c["roots1"], "dependencies_copy2": c["roots2"],
             "prior_scenes": [c["np1"], c["np2"]], "stream": c["stream"],
             "observable_copy1": c["obs1"], "observable_copy2": c["obs2"]}
     # (C) spec-level mutant: without RestoreRng the property fails (the section is load-bearing)
     noisy = [p for p in progs if any(r["ic"] for r in p["reqs"])]
+    if tier == "quick":  # the failing runs stop at the first counterexample: a few small programs are enough
+        noisy = sorted(noisy, key=lambda p: (len(p["rroots"]), len(p["nodes"])))[:8]
     nentries, _ = expand_variants(noisy)
     res = run_tlc("Determinism", CFG.format(ordered="TRUE", restore='"never"', full=full, prior=2, R=R_, more="INVARIANT DeterministicScene\n"),
-                  env=dict(env, PROGS=write_progs(nentries, "model-noisy.json")), expect_fail=True, timeout=2400)
+                  env=dict(env, PROGS=write_progs(nentries, "model-noisy.json")), expect_fail=True, timeout=2400, workers=W)
     if res.invariant_violated != "DeterministicScene":
         raise MachineryError(f"the model without RestoreRng did not fail (violated: {res.invariant_violated}; {res.error})")
     ck.add_tlc("Determinism[no RestoreRng, expected to fail]", res)
@@ -1035,7 +1082,7 @@ def model_check(ck, progs, tier):
     # (D) spec-level mutant: restored only when the sample is accepted -> the randomness a rejected
     # sample's checks consumed leaks, and how much depends on the checker's order: must fail too
     res = run_tlc("Determinism", CFG.format(ordered="TRUE", restore='"accepted"', full=full, prior=2, R=R_, more="INVARIANT DeterministicScene\n"),
-                  env=dict(env, PROGS=write_progs(nentries, "model-noisy.json")), expect_fail=True, timeout=2400)
+                  env=dict(env, PROGS=write_progs(nentries, "model-noisy.json")), expect_fail=True, timeout=2400, workers=W)
     if res.invariant_violated != "DeterministicScene":
         raise MachineryError(f"the model restoring only accepted samples did not fail (violated: {res.invariant_violated}; {res.error})")
     ck.add_tlc("Determinism[RestoreRng only when accepted, expected to fail]", res)
@@ -1070,16 +1117,16 @@ def main(tier, mutant=None, ck=None, items=None, nproc=None):
     ]
     nproc = nproc or int(os.environ.get("C15_NPROC", 0)) or (5 if tier == "quick" else 8)
     if items is None:
-        nprog = int(os.environ.get("C15_NPROG", 0)) or (29 if tier == "quick" else 200)  # overrides: smoke tests only
+        nprog = int(os.environ.get("C15_NPROG", 0)) or (24 if tier == "quick" else 200)  # overrides: smoke tests only
         ncls, ngeom = (6, 2) if tier == "quick" else (16, 4)
         if nprog < 20:
             ncls, ngeom = 3, 1
         nt = len(CLASS_TEMPLATES)
         cls = [class_case(CLASS_TEMPLATES[(seed() + j) % nt], 20, soft=(Fraction(1, 2) if j >= nt else None)) for j in range(ncls)]
         geo = [geom_case(seed() + j) for j in range(ngeom)]
-        items, dropped = gen_programs(seed() * 104729 + 15, max(1, nprog - 1 - ncls - ngeom), 20)
+        items, dropped = gen_programs(seed() * 104729 + 15, max(1, nprog - 3 - ncls - ngeom), 20)
         # the slow (geometric) programs first, so that they overlap with the others
-        items = geo + [canary()] + cls + items
+        items = geo + [canary()] + leak_probes() + cls + items
         ck.cov["dropped_by_generator"] = dropped
 
     t0 = time.time()
@@ -1089,7 +1136,7 @@ def main(tier, mutant=None, ck=None, items=None, nproc=None):
         if own:
             fam = [p for _t, p, _i in family(tier)]
             small = [dict(p, maxIter=2) for _t, p, i in items
-                     if p is not None and i.get("mode") != "class" and i["nprims"] <= 4 and i["branches"] <= 300][: (6 if tier == "quick" else 60)]
+                     if p is not None and i.get("mode") != "class" and i["nprims"] <= 4 and i["branches"] <= 300][: (3 if tier == "quick" else 60)]
             model_check(ck, fam + small, tier)
         per = fut.result()
     ck.cov["processes_wall_s"] = round(time.time() - t0, 1)
